@@ -613,12 +613,17 @@ impl Recovery {
                 _ => anyhow::bail!("Invalid live segment indices"),
             };
 
-        let nonlive_segments;
+        let mut nonlive_segments;
         let live_segments;
 
         if let Some((start, end)) = live_segments_indices {
             live_segments = self.candidates.drain(start..=end).collect::<Vec<_>>();
+            // The segments older than the live range are removed oldest first, the ones newer than
+            // it newest first: a crash half-way must not leave a gap in the segment IDs, or the
+            // log could not be opened again.
+            let newer_segments = self.candidates.split_off(start);
             nonlive_segments = mem::take(&mut self.candidates);
+            nonlive_segments.extend(newer_segments.into_iter().rev());
         } else {
             live_segments = Vec::new();
             nonlive_segments = mem::take(&mut self.candidates);
